@@ -10,7 +10,14 @@ import RegressModel.Gen.Strings
 
 Code points are `Nat`; the pattern is a `List Nat` of code points (the Rust type is an iterator of
 `u32`; values that are not Unicode scalar values -- surrogates, or above `0x10FFFF` -- are possible
-and `char::from_u32` failing on them is modelled by `isChar`).
+and `char::from_u32` failing on them is modelled by `isChar`).  The model agrees with a release
+build (no `debug_assert!`, wrapping arithmetic) for all code points `< 0xFFFFFFFF`; `usize` is 64-bit.
+
+Panic sites.  An `unwrap`/`expect`/`unreachable!`/`panic!` of the Rust code is the explicit result
+`.panic "<function>: <site>"`.  Where the Rust code unwraps immediately after the corresponding
+test on the same value (`if nc.is_none() { return } … nc.unwrap()`; `self.consume(c)` /
+`self.next().expect(..)` right after `self.peek()` returned `Some(c)`; `v[0]` under `v.len() == 1`)
+the model matches on the value once and the unwrap has no separate counterpart.
 
 Everything in this file is a transliteration of a non-recursive (or list-recursive) helper of the
 parser.  The recursive descent itself is in `Parse.lean`.
